@@ -121,7 +121,11 @@ fn amount_de(enc: &str, shape: &str, ty: &str, s: &str, reader: bool) -> Option<
         _ => return None,
     })
 }
-fn amount_ser(enc: &str, shape: &str, ty: &str, v: &[&str]) -> Option<String> {
+fn amount_ser(enc: &str, shape: &str, ty: &str, v: &[&str]) -> Option<String> { amount_ser2(enc, shape, ty, v, false) }
+/// `forms`: the wrapper through `to_string` and then `from_reader` / `to_value` -> `from_value` / `from_slice` (`with_rd`) instead of `from_str`
+fn amount_ser2(enc: &str, shape: &str, ty: &str, v: &[&str], forms: bool) -> Option<String> {
+    fn w<T: Serialize + DeserializeOwned + PartialEq>(v: &T, forms: bool) -> String { if forms { with_rd(v) } else { with_rt(v) } }
+
     let one_u = || if v.len() == 1 { au(v[0]) } else { None };
     let one_i = || if v.len() == 1 { ai(v[0]) } else { None };
     let opt_u = || if v.len() != 1 { None } else if v[0] == "none" { Some(None) } else { au(v[0]).map(Some) };
@@ -129,20 +133,31 @@ fn amount_ser(enc: &str, shape: &str, ty: &str, v: &[&str]) -> Option<String> {
     let vec_u = || v.iter().map(|t| au(t)).collect::<Option<Vec<_>>>();
     let vec_i = || v.iter().map(|t| ai(t)).collect::<Option<Vec<_>>>();
     Some(match (enc, shape, ty) {
-        ("as_pico", "plain", "u") => with_rt(&PicoU { amount: one_u()? }),
-        ("as_pico", "plain", "s") => with_rt(&PicoS { amount: one_i()? }),
-        ("as_xmr", "plain", "u") => with_rt(&XmrU { amount: one_u()? }),
-        ("as_xmr", "plain", "s") => with_rt(&XmrS { amount: one_i()? }),
-        ("as_pico", "opt", "u") => with_rt(&PicoOptU { amount: opt_u()? }),
-        ("as_pico", "opt", "s") => with_rt(&PicoOptS { amount: opt_i()? }),
-        ("as_xmr", "opt", "u") => with_rt(&XmrOptU { amount: opt_u()? }),
-        ("as_xmr", "opt", "s") => with_rt(&XmrOptS { amount: opt_i()? }),
-        ("as_pico", "vec", "u") => with_rt(&PicoVecU { amounts: vec_u()? }),
-        ("as_pico", "vec", "s") => with_rt(&PicoVecS { amounts: vec_i()? }),
-        ("as_xmr", "vec", "u") => with_rt(&XmrVecU { amounts: vec_u()? }),
-        ("as_xmr", "vec", "s") => with_rt(&XmrVecS { amounts: vec_i()? }),
+        ("as_pico", "plain", "u") => w(&PicoU { amount: one_u()? }, forms),
+        ("as_pico", "plain", "s") => w(&PicoS { amount: one_i()? }, forms),
+        ("as_xmr", "plain", "u") => w(&XmrU { amount: one_u()? }, forms),
+        ("as_xmr", "plain", "s") => w(&XmrS { amount: one_i()? }, forms),
+        ("as_pico", "opt", "u") => w(&PicoOptU { amount: opt_u()? }, forms),
+        ("as_pico", "opt", "s") => w(&PicoOptS { amount: opt_i()? }, forms),
+        ("as_xmr", "opt", "u") => w(&XmrOptU { amount: opt_u()? }, forms),
+        ("as_xmr", "opt", "s") => w(&XmrOptS { amount: opt_i()? }, forms),
+        ("as_pico", "vec", "u") => w(&PicoVecU { amounts: vec_u()? }, forms),
+        ("as_pico", "vec", "s") => w(&PicoVecS { amounts: vec_i()? }, forms),
+        ("as_xmr", "vec", "u") => w(&XmrVecU { amounts: vec_u()? }, forms),
+        ("as_xmr", "vec", "s") => w(&XmrVecS { amounts: vec_i()? }, forms),
         _ => return None,
     })
+}
+fn addr_of(n: &str, k: &str, s: &str, v: &str, p: &str) -> Option<Option<Address>> {
+    let n = match n { "Mainnet" => Network::Mainnet, "Testnet" => Network::Testnet, "Stagenet" => Network::Stagenet, _ => return None };
+    let (s, v, p) = (unhex(s), unhex(v), unhex(p));
+    let ks = match PublicKey::from_slice(&s) { Ok(k) => k, Err(_) => return Some(None) };
+    let kv = match PublicKey::from_slice(&v) { Ok(k) => k, Err(_) => return Some(None) };
+    Some(match k {
+        "Standard" => if p.is_empty() { Some(Address::standard(n, ks, kv)) } else { None },
+        "SubAddress" => if p.is_empty() { Some(Address::subaddress(n, ks, kv)) } else { None },
+        "Integrated" => if p.len() == 8 { Some(Address::integrated(n, ks, kv, PaymentId::from_slice(&p))) } else { None },
+        _ => return None })
 }
 fn utf8(h: &str) -> Result<String, String> { String::from_utf8(unhex(h)).map_err(|_| "bad-utf8".to_string()) }
 
@@ -177,6 +192,15 @@ pub fn exec(t: &[&str]) -> Option<String> {
         ["c19_amount", enc, shape, ty, v @ ..] => amount_ser(enc, shape, ty, v),
         ["c19_amount_de", enc, shape, ty, h] => { let s = match utf8(h) { Ok(s) => s, Err(e) => return Some(e) }; amount_de(enc, shape, ty, &s, false) }
         ["c19_amount_rd", enc, shape, ty, h] => { let s = match utf8(h) { Ok(s) => s, Err(e) => return Some(e) }; amount_de(enc, shape, ty, &s, true) }
+        // several operations on the SAME thread, one after the other, in one line: `c19_seq <op…> ; <op…> ; …` -> the results joined by ` ; `
+        ["c19_seq", rest @ ..] => {
+            let mut out = Vec::new();
+            for sub in rest.split(|t| *t == ";") { if sub.is_empty() || sub[0] == "c19_seq" { return None; } out.push(exec(sub)?); }
+            Some(out.join(" ; "))
+        }
+        ["c19_amount_forms", enc, shape, ty, v @ ..] => amount_ser2(enc, shape, ty, v, true),
+        // an address BUILT from its parts (no text of the library involved in producing the input)
+        ["c19_addr_parts", n, k, sp, vw, p] => Some(match addr_of(n, k, sp, vw, p)? { Some(a) => with_rt(&a), None => "err".into() }),
         ["c19_addr", h] => { let s = match utf8(h) { Ok(s) => s, Err(e) => return Some(e) };
             Some(match Address::from_str(&s) { Ok(a) => with_rt(&a), Err(_) => "err".into() }) }
         ["c19_addr_de", h] => { let s = match utf8(h) { Ok(s) => s, Err(e) => return Some(e) };
@@ -425,6 +449,7 @@ pub fn run(o: &mut Out, tier: &str, seed: u64) {
     }
     for d in ["null", "5", "\"\"", "\"4\"", "[]", "{}", "true", "\"not an address\"", "\"é\"", "\"\\ud83d\\ude00\"", "\"\\ud83d\""] { o.op(format!("c19_addr_de {}", h(d)), false); o.stat("addr_de.probe"); }
     run_more(o, thorough, seed);
+    run_more2(o, thorough, seed);
 }
 
 /// the values of the members of a top-level JSON object text, in the order they are written
@@ -663,3 +688,230 @@ fn run_more(o: &mut Out, thorough: bool, seed: u64) {
         o.stat(&format!("de2.mut.{}.{}", what.split(' ').next().unwrap(), if r.starts_with("ok") { "ok" } else { "err" }));
     }
 }
+
+/// Families added after the review of session 4 (each comes from a seeded source change that the families above did not see). Own random
+/// stream: the families above generate what they generated before.
+/// (1) NEIGHBOURS ON ONE THREAD: values that share a prefix of their fields, serialised / deserialised one after the other — in one
+///     `c19_seq` line (same call, same thread, nothing in between) and as consecutive single operations: two integrated addresses of the
+///     same wallet and network with different payment ids (built from their PARTS: `c19_addr_parts`), the standard / sub-address of the
+///     same keys, the same keys on another network, the same spend key with another view key; transactions sharing the prefix (and the
+///     base), blocks sharing the header (and the miner transaction), extras, indexes, hashes, amounts, documents.
+/// (2) `as_pico` ABOVE 2^53 (where an `f64` loses integers): plain, opt, slice / vec and the RingCT fee must be written as JSON INTEGERS
+///     (`Value::is_u64` / `is_i64`, the exact decimal text) and read back through every entry point; the value text of one form is read
+///     by the others (slice element -> plain / opt, plain value -> vec).
+/// (3) `as_xmr` STRINGS WITHOUT A DECIMAL POINT and other spellings a "fast path" would take: whole-monero amounts around and above
+///     the limit, a leading `+`, more than 50 characters of zero padding: plain, opt and vec must give the same answer on the same
+///     string (and the specification's, `Spec.Decimal.specParse`, on the driver's spec side).
+fn run_more2(o: &mut Out, thorough: bool, seed: u64) {
+    let mut rng = Rng::new(seed ^ 0xc19_0003);
+    o.notes.push("non-trivial rule (families of run_more2): c19_seq lines none of whose parts is err / rt=ne / rt=err; c19_addr_parts and c19_amount(_forms) lines ending in =eq; c19_amount_de / _rd lines whose result is ok".into());
+    let net_name = |n: Network| match n { Network::Mainnet => "Mainnet", Network::Testnet => "Testnet", Network::Stagenet => "Stagenet" };
+    // one `c19_seq` line; returns the results of its parts
+    fn seq(o: &mut Out, what: &str, lines: &[String]) -> Vec<String> {
+        let r = o.op(format!("c19_seq {}", lines.join(" ; ")), false);
+        let parts: Vec<String> = r.split(" ; ").map(String::from).collect();
+        o.direct(parts.len() == lines.len(), "c19_seq: one result per operation", what.to_string(), format!("{} results", parts.len()), format!("{}", lines.len()));
+        // equal lines give equal results, different lines different results (a result that repeats its neighbour's is a stale memo)
+        let mut ok = true;
+        // (`~` in front of the family name: different operations may legitimately give equal results — a reordered document, the same amount as plain and as `Some`)
+        let strict = !what.starts_with('~');
+        for i in 0..lines.len().min(parts.len()) { for j in 0..i { let (le, pe) = (lines[i] == lines[j], parts[i] == parts[j]); if (le && !pe) || (strict && !le && pe && parts[i] != "err") { ok = false; } } }
+        o.direct(ok, &format!("neighbours on one thread ({}): equal operations give equal results, different values different results", what.trim_start_matches('~')), lines.join(" ; ").chars().take(400).collect(), parts.iter().map(|p| p.chars().take(60).collect::<String>()).collect::<Vec<_>>().join(" ; "), "distinct results for distinct values".into());
+        if parts.iter().all(|p| p != "err" && !p.ends_with("rt=ne") && !p.ends_with("rt=err")) { let l = o.ops.last().unwrap().clone(); o.nontrivial.insert(l); }
+        o.stat(&format!("seq.{}", what.trim_start_matches('~')));
+        parts
+    }
+
+    // ---- (1a) addresses of one wallet
+    for n in [Network::Mainnet, Network::Testnet, Network::Stagenet] { for w in 0..(if thorough { 4 } else { 1 }) {
+        let (s, v, v2) = (valid_key(&mut rng), valid_key(&mut rng), valid_key(&mut rng));
+        let p1 = rng.bytes(8);
+        let mut p2 = p1.clone(); p2[7] ^= 1 << rng.below(8);
+        let mut p3 = p1.clone(); p3[0] ^= 0x80;
+        let other = match n { Network::Mainnet => Network::Stagenet, Network::Testnet => Network::Mainnet, Network::Stagenet => Network::Testnet };
+        let line = |n: Network, k: &str, v: &PublicKey, p: &[u8]| format!("c19_addr_parts {} {} {} {} {}", net_name(n), k, hex(s.as_bytes()), hex(v.as_bytes()), hex(p));
+        let (i1, i2, i3, i0) = (line(n, "Integrated", &v, &p1), line(n, "Integrated", &v, &p2), line(n, "Integrated", &v, &p3), line(n, "Integrated", &v, &[0u8; 8]));
+        let (st, su) = (line(n, "Standard", &v, &[]), line(n, "SubAddress", &v, &[]));
+        let seqs: Vec<(&str, Vec<String>)> = vec![
+            ("addr.two_payment_ids", vec![i1.clone(), i2.clone()]), ("addr.two_payment_ids_and_back", vec![i2.clone(), i1.clone(), i2.clone(), i3.clone()]),
+            ("addr.std_int_sub_int", vec![st.clone(), i1.clone(), su.clone(), i3.clone(), st.clone()]), ("addr.null_payment_id", vec![i0.clone(), st.clone(), i1.clone(), i0.clone()]),
+            ("addr.other_network", vec![i1.clone(), line(other, "Integrated", &v, &p1), i1.clone()]), ("addr.other_view_key", vec![i1.clone(), line(n, "Integrated", &v2, &p1), st.clone(), line(n, "Standard", &v2, &[])]),
+        ];
+        for (what, ls) in seqs.iter() { if w > 0 && !what.contains("payment_id") { continue; }
+            let parts = seq(o, what, ls);
+            o.direct(parts.iter().all(|p| p.ends_with(" rt=eq")), "addresses of one wallet, one after the other: each reads back as itself", ls.join(" ; "), parts.join(" ; "), "rt=eq everywhere".into()); }
+        // the same as consecutive single operations, and the texts through the two older operations and the deserialiser
+        for l in [&i1, &i2, &i1, &st, &i3] { let r = o.op(l.clone(), false); if r.ends_with("rt=eq") { let l = o.ops.last().unwrap().clone(); o.nontrivial.insert(l); } }
+        let (a1, a2, a0) = (Address::integrated(n, s, v, PaymentId::from_slice(&p1)), Address::integrated(n, s, v, PaymentId::from_slice(&p2)), Address::standard(n, s, v));
+        // direct, on this thread: serialise a1, a2, a1, the standard address; deserialise the texts in the same order (values compared as structs)
+        let js: Vec<String> = [&a1, &a2, &a1, &a0, &a2].iter().map(|a| serde_json::to_string(a).unwrap()).collect();
+        o.direct(js[0] != js[1] && js[0] == js[2] && js[1] == js[4] && js[3] != js[0], "to_json of two integrated addresses of one wallet, back to back", format!("{} / {}", i1, i2), js.join(" "), "a1 a2 a1 std a2".into());
+        let back: Vec<Option<Address>> = js.iter().map(|j| serde_json::from_str::<Address>(j).ok()).collect();
+        o.direct(back == vec![Some(a1), Some(a2), Some(a1), Some(a0), Some(a2)], "from_json of the texts of two integrated addresses of one wallet, back to back", format!("{} / {}", i1, i2), format!("{:?}", back.iter().map(|b| b.map(|a| a.to_string())).collect::<Vec<_>>()), "a1 a2 a1 std a2".into());
+        let back2: Vec<Option<Address>> = js.iter().map(|j| serde_json::from_reader::<_, Address>(j.as_bytes()).ok()).collect();
+        o.direct(back2 == back, "from_reader of the same texts", i1.clone(), "-".into(), "as from_str".into());
+        let (t1, t2, t0) = (a1.to_string(), a2.to_string(), a0.to_string());
+        seq(o, "addr.text_two_payment_ids", &[format!("c19_addr {}", h(&t1)), format!("c19_addr {}", h(&t2)), format!("c19_addr {}", h(&t0)), format!("c19_addr {}", h(&t1))]);
+        let parts = seq(o, "addr_de.two_payment_ids", &[format!("c19_addr_de {}", h(&format!("\"{}\"", t1))), format!("c19_addr_de {}", h(&format!("\"{}\"", t2))), format!("c19_addr_de {}", h(&format!("\"{}\"", t1))), format!("c19_addr_de {}", h(&format!("\"{}\"", t0)))]);
+        o.direct(parts == vec![format!("ok {}", h(&t1)), format!("ok {}", h(&t2)), format!("ok {}", h(&t1)), format!("ok {}", h(&t0))], "address documents sharing their first characters, deserialised one after the other", t1.clone(), parts.join(" ; "), "each its own text".into());
+        o.op(format!("c19_addr_de {}", h(&format!("\"{}\"", t1))), true); o.op(format!("c19_addr_de {}", h(&format!("\"{}\"", t2))), true);
+        o.stat(&format!("addr.one_wallet.{:?}", n));
+    } }
+
+    // ---- (1b) other values sharing a prefix of their fields
+    let small_tx = |rng: &mut Rng, ty: RctType, version: u64| { let mut s = gen::shape(rng); s.rct = ty; s.version = version; s.nin = 1 + rng.below(2) as usize; s.nout = 1 + rng.below(2) as usize; s.all_coinbase = false; s.coinbase_first = false; s.nbp = 1; s.ring = 1 + rng.below(3) as usize; s.vary_rings = false; s.extra_len = 8; gen::tx_of(rng, &s) };
+    let txl = |t: &Transaction| format!("c19_json tx {}", hex(&serialize(t)));
+    for ty in [RctType::Clsag, RctType::BulletproofPlus, RctType::Bulletproof2] {
+        let t = small_tx(&mut rng, ty, 2);
+        let mut t_fee = t.clone(); if let Some(b) = t_fee.rct_signatures.sig.as_mut() { b.txn_fee = Amount::from_pico(b.txn_fee.as_pico() ^ 1); }
+        let mut t_pk = t.clone(); if let Some(b) = t_pk.rct_signatures.sig.as_mut() { if let Some(k) = b.out_pk.last_mut() { *k = CtKey { mask: gen::key(&mut rng) }; } }
+        let mut t_pr = t.clone(); if let Some(p) = t_pr.rct_signatures.p.as_mut() { if let Some(k) = p.pseudo_outs.last_mut() { *k = gen::key(&mut rng); } }
+        let mut t_ex = t.clone(); if let Some(x) = t_ex.prefix.extra.0.last_mut() { *x ^= 1; }
+        let mut t_ul = t.clone(); t_ul.prefix.unlock_time = VarInt(t.prefix.unlock_time.0 ^ 1);
+        seq(o, "tx.same_prefix_other_fee", &[txl(&t), txl(&t_fee), txl(&t)]);
+        seq(o, "tx.same_prefix_other_out_pk", &[txl(&t_pk), txl(&t)]);
+        seq(o, "tx.same_prefix_and_base_other_prunable", &[txl(&t), txl(&t_pr), txl(&t)]);
+        seq(o, "tx.other_extra_byte", &[txl(&t), txl(&t_ex)]);
+        seq(o, "prefix.neighbours", &[format!("c19_json prefix {}", hex(&serialize(&t.prefix))), format!("c19_json prefix {}", hex(&serialize(&t_ex.prefix))), format!("c19_json prefix {}", hex(&serialize(&t_ul.prefix)))]);
+        // the documents, through the deserialiser
+        let (d, d2, d3) = (serde_json::to_string(&t).unwrap(), serde_json::to_string(&t_fee).unwrap(), serde_json::to_string(&t_pr).unwrap());
+        let parts = seq(o, "de.tx.neighbours", &[format!("c19_de tx {}", h(&d)), format!("c19_de tx {}", h(&d2)), format!("c19_de tx {}", h(&d3)), format!("c19_de tx {}", h(&d))]);
+        o.direct(parts == vec![format!("ok {}", d), format!("ok {}", d2), format!("ok {}", d3), format!("ok {}", d)], "transaction documents sharing the prefix, deserialised one after the other", "c19_de tx".into(), parts.iter().map(|p| p.len().to_string()).collect::<Vec<_>>().join(" "), "each its own document".into());
+        // a block around it: same header and miner transaction with other hashes; same header with another miner transaction
+        let mut b = gen::block(&mut rng, 2); b.miner_tx = t.clone();
+        let mut b_h = b.clone(); b_h.tx_hashes[1].0[31] ^= 1;
+        let mut b_m = b.clone(); b_m.miner_tx = t_fee.clone();
+        let mut b_n = b.clone(); b_n.header.nonce ^= 1;
+        let bl = |b: &Block| format!("c19_json block {}", hex(&serialize(b)));
+        seq(o, "block.neighbours", &[bl(&b), bl(&b_h), bl(&b_m), bl(&b_n), bl(&b)]);
+    }
+    { let t = small_tx(&mut rng, RctType::Null, 1);
+      let mut t2 = t.clone(); if let Some(s) = t2.signatures.last_mut().and_then(|r| r.last_mut()) { s.r = gen::key(&mut rng); }
+      seq(o, "tx.v1_same_prefix_other_signature", &[txl(&t), txl(&t2), txl(&t)]); }
+    for _ in 0..(if thorough { 12 } else { 3 }) {
+        let (a, b, c) = (rng.next() as u32, rng.next() as u32, rng.next() as u32);
+        seq(o, "index.same_major", &[format!("c19_json index {} {}", a, b), format!("c19_json index {} {}", a, c), format!("c19_json index {} {}", c, b)]);
+        let hb = rng.arr32(); let mut hb2 = hb; hb2[31] ^= 1; let mut hb3 = hb; hb3[0] ^= 1;
+        seq(o, "hash.neighbours", &[format!("c19_json hash {}", hex(&hb)), format!("c19_json hash {}", hex(&hb2)), format!("c19_json hash {}", hex(&hb3)), format!("c19_json hash8 {}", hex(&hb[..8])), format!("c19_json hash8 {}", hex(&hb2[24..]))]);
+        let nv = rng.u64_boundary() | 1;
+        seq(o, "varint.neighbours", &[format!("c19_json varint {}", nv), format!("c19_json varint {}", nv - 1), format!("c19_json rcttype {}", rng.below(7)), format!("c19_json rcttype {}", rng.below(7))]);
+        let (k1, k2, k3) = (hex(&rng.arr32()), hex(&rng.arr32()), hex(&rng.arr32()));
+        let nn = hex(&rng.bytes(6)); let d = rng.u64_boundary();
+        seq(o, "extra.neighbours", &[format!("c19_json extra P:{};N:{}aa", k1, nn), format!("c19_json extra P:{};N:{}ab", k1, nn), format!("c19_json extra P:{};N:{}aa;D:3", k1, nn),
+            format!("c19_json extra M:{}:{}", d, k2), format!("c19_json extra M:{}:{}", d, k3), format!("c19_json extra A:{},{}", k1, k2), format!("c19_json extra A:{},{}", k1, k3), format!("c19_json extra A:{}", k1)]);
+        let parts = seq(o, "~de.index.neighbours", &[format!("c19_de index {}", h(&format!("{{\"major\":{},\"minor\":{}}}", a, b))), format!("c19_de index {}", h(&format!("{{\"major\":{},\"minor\":{}}}", a, c))), format!("c19_de index {}", h(&format!("{{\"minor\":{},\"major\":{}}}", b, a)))]);
+        o.direct(parts.len() == 3 && parts[0] == parts[2] && parts[0] != parts[1] || b == c, "index documents sharing the major index", format!("{} {} {}", a, b, c), parts.join(" ; "), "first = third".into());
+    }
+    for enc in ["as_pico", "as_xmr"] { for ty in ["u", "s"] {
+        let a = (rng.next() >> 2) as i64; let (a1, a2) = (a | 1, (a | 1) - 1);
+        let sg = |x: i64| if ty == "s" && rng_sign(x) { -x } else { x };
+        let (a1, a2) = (sg(a1), sg(a2));
+        seq(o, "~amount.neighbours", &[format!("c19_amount {} plain {} {}", enc, ty, a1), format!("c19_amount {} plain {} {}", enc, ty, a2), format!("c19_amount {} opt {} {}", enc, ty, a1), format!("c19_amount {} opt {} none", enc, ty), format!("c19_amount {} opt {} {}", enc, ty, a2),
+            format!("c19_amount {} vec {} {} {}", enc, ty, a1, a2), format!("c19_amount {} vec {} {} {}", enc, ty, a1, a1), format!("c19_amount {} vec {} {} {} {}", enc, ty, a1, a2, a1), format!("c19_amount {} vec {} {}", enc, ty, a1)]);
+        let dv = |x: i64| if enc == "as_pico" { x.to_string() } else { format!("\"{}\"", SignedAmount::from_pico(x).to_string_in(monero::Denomination::Monero)) };
+        seq(o, "~amount_de.neighbours", &[format!("c19_amount_de {} plain {} {}", enc, ty, h(&format!("{{\"amount\":{}}}", dv(a1)))), format!("c19_amount_de {} plain {} {}", enc, ty, h(&format!("{{\"amount\":{}}}", dv(a2)))),
+            format!("c19_amount_de {} vec {} {}", enc, ty, h(&format!("{{\"amounts\":[{},{}]}}", dv(a1), dv(a2)))), format!("c19_amount_de {} vec {} {}", enc, ty, h(&format!("{{\"amounts\":[{},{}]}}", dv(a1), dv(a1)))),
+            format!("c19_amount_de {} opt {} {}", enc, ty, h(&format!("{{\"amount\":{}}}", dv(a2)))), format!("c19_amount_de {} opt {} {}", enc, ty, h("{\"amount\":null}")), format!("c19_amount_de {} opt {} {}", enc, ty, h(&format!("{{\"amount\":{}}}", dv(a1))))]);
+    } }
+
+    // ---- (2) `as_pico` above 2^53
+    let mut big: Vec<u64> = vec![(1 << 53) - 1, 1 << 53, (1 << 53) + 1, (1 << 53) + 3, (1 << 54) + 1, (1 << 60) + 1, 9_007_199_254_740_993, (1 << 63) - 1, 1 << 63, (1 << 63) + 1, 10_000_000_000_000_000_001, u64::MAX - 2, u64::MAX];
+    for _ in 0..(if thorough { 60 } else { 8 }) { let k = rng.range(53, 63); big.push(((1u64 << k) | (rng.next() & ((1u64 << k) - 1))) | 1); }
+    let mut bigs: Vec<i64> = vec![(1 << 53) + 1, -((1 << 53) + 1), (1 << 62) + 1, -((1 << 62) + 1), i64::MAX, i64::MIN, i64::MIN + 1, -9_007_199_254_740_993];
+    for _ in 0..(if thorough { 30 } else { 4 }) { let k = rng.range(53, 62); let x = (((1u64 << k) | (rng.next() & ((1u64 << k) - 1))) | 1) as i64; bigs.push(if rng.chance(1, 2) { -x } else { x }); }
+    let ntr = |o: &mut Out, r: &str| if r.ends_with("=eq") { let l = o.ops.last().unwrap().clone(); o.nontrivial.insert(l); };
+    for (i, &a) in big.iter().enumerate() {
+        let b = big[(i * 7 + 3) % big.len()];
+        let r = o.op(format!("c19_amount as_pico plain u {}", a), false); ntr(o, &r);
+        o.direct(r == format!("{{\"amount\":{}}} rt=eq", a), "as_pico above 2^53: a JSON integer, read back", format!("plain u {}", a), r.clone(), format!("{{\"amount\":{}}} rt=eq", a));
+        let r = o.op(format!("c19_amount as_pico opt u {}", a), false); ntr(o, &r);
+        o.direct(r == format!("{{\"amount\":{}}} rt=eq", a), "as_pico::opt above 2^53: a JSON integer, read back", format!("opt u {}", a), r.clone(), format!("{{\"amount\":{}}} rt=eq", a));
+        let r = o.op(format!("c19_amount_forms as_pico vec u {} {}", a, b), false); ntr(o, &r);
+        o.direct(r == format!("{{\"amounts\":[{},{}]}} rd=eq val=eq slice=eq", a, b), "as_pico::slice -> vec above 2^53 through from_reader / from_value / from_slice", format!("vec u {} {}", a, b), r.clone(), "integers, eq eq eq".into());
+        if i % 3 == 0 { let r = o.op(format!("c19_amount_forms as_pico plain u {}", a), false); ntr(o, &r); let r = o.op(format!("c19_amount_forms as_pico opt u {}", a), false); ntr(o, &r); }
+        // the value trees hold integers, not floats
+        let (v1, v2, v3) = (serde_json::to_value(&PicoU { amount: Amount::from_pico(a) }).unwrap(), serde_json::to_value(&PicoOptU { amount: Some(Amount::from_pico(a)) }).unwrap(), serde_json::to_value(&PicoVecU { amounts: vec![Amount::from_pico(a), Amount::from_pico(b)] }).unwrap());
+        o.direct(v1["amount"].as_u64() == Some(a) && v2["amount"].as_u64() == Some(a) && v3["amounts"][0].as_u64() == Some(a) && v3["amounts"][1].as_u64() == Some(b), "as_pico above 2^53: to_value holds u64 integers in plain, opt and slice", a.to_string(), format!("{} {} {}", v1, v2, v3), "integers".into());
+        // across the forms: the element the slice writer wrote is read by plain and opt; the value the plain writer wrote is read by vec
+        let sl = serde_json::to_string(&PicoVecU { amounts: vec![Amount::from_pico(a)] }).unwrap();
+        let el = top_values(&sl).first().map(|x| x.trim_start_matches('[').trim_end_matches(']').to_string()).unwrap_or_default();
+        let pl = top_values(&serde_json::to_string(&PicoU { amount: Amount::from_pico(a) }).unwrap()).first().cloned().unwrap_or_default();
+        o.direct(el == a.to_string() && pl == el, "as_pico: slice element, plain value and the decimal integer are the same text", a.to_string(), format!("{} {}", el, pl), a.to_string());
+        let shape = ["plain", "opt"][i % 2];
+        let r = o.op(format!("c19_amount_de as_pico {} u {}", shape, h(&format!("{{\"amount\":{}}}", el))), false); if r.starts_with("ok") { let l = o.ops.last().unwrap().clone(); o.nontrivial.insert(l); }
+        o.direct(r == format!("ok {}", a), "as_pico: what slice wrote is read by plain / opt", a.to_string(), r.clone(), format!("ok {}", a));
+        let r = o.op(format!("c19_amount_{} as_pico vec u {}", if i % 2 == 0 { "de" } else { "rd" }, h(&format!("{{\"amounts\":[{},{}]}}", pl, b))), false); if r.starts_with("ok") { let l = o.ops.last().unwrap().clone(); o.nontrivial.insert(l); }
+        o.direct(r == format!("ok {} {}", a, b), "as_pico: what plain wrote is read by vec", a.to_string(), r.clone(), format!("ok {} {}", a, b));
+        o.stat(&format!("pico_big.u.{}", if a > i64::MAX as u64 { ">2^63-1" } else { ">=2^53-1" }));
+    }
+    for (i, &a) in bigs.iter().enumerate() {
+        let b = bigs[(i * 5 + 1) % bigs.len()];
+        let r = o.op(format!("c19_amount as_pico plain s {}", a), false); ntr(o, &r);
+        o.direct(r == format!("{{\"amount\":{}}} rt=eq", a), "as_pico (signed) beyond ±2^53: a JSON integer, read back", format!("plain s {}", a), r.clone(), format!("{{\"amount\":{}}} rt=eq", a));
+        let r = o.op(format!("c19_amount_forms as_pico opt s {}", a), false); ntr(o, &r);
+        o.direct(r == format!("{{\"amount\":{}}} rd=eq val=eq slice=eq", a), "as_pico::opt (signed) beyond ±2^53 through every entry point", format!("opt s {}", a), r.clone(), "integer, eq eq eq".into());
+        let r = o.op(format!("c19_amount_forms as_pico vec s {} {}", a, b), false); ntr(o, &r);
+        o.direct(r == format!("{{\"amounts\":[{},{}]}} rd=eq val=eq slice=eq", a, b), "as_pico::slice -> vec (signed) beyond ±2^53 through every entry point", format!("vec s {} {}", a, b), r.clone(), "integers, eq eq eq".into());
+        let v3 = serde_json::to_value(&PicoVecS { amounts: vec![SignedAmount::from_pico(a)] }).unwrap();
+        o.direct(v3["amounts"][0].as_i64() == Some(a), "as_pico (signed): to_value holds an i64 integer", a.to_string(), v3.to_string(), "integer".into());
+        let r = o.op(format!("c19_amount_de as_pico {} s {}", ["plain", "opt", "vec"][i % 3], h(&if i % 3 == 2 { format!("{{\"amounts\":[{}]}}", a) } else { format!("{{\"amount\":{}}}", a) })), false);
+        o.direct(r == format!("ok {}", a), "as_pico (signed): the decimal integer is read back exactly", a.to_string(), r.clone(), format!("ok {}", a));
+        o.stat("pico_big.s");
+    }
+    // floats and strings that DENOTE such an integer are not integers: refused by every shape
+    for d in ["9007199254740993.0", "9.007199254740993e15", "\"9007199254740993\"", "18446744073709551615.0", "1.8446744073709552e19", "9007199254740993e0"] { for shape in ["plain", "opt", "vec"] {
+        let doc = if shape == "vec" { format!("{{\"amounts\":[{}]}}", d) } else { format!("{{\"amount\":{}}}", d) };
+        let r = o.op(format!("c19_amount_de as_pico {} u {}", shape, h(&doc)), false);
+        o.direct(r == "err", "as_pico: a float or a string denoting an integer is refused", doc.clone(), r.clone(), "err".into()); o.stat("pico_big.not_an_integer");
+    } }
+    // the RingCT fee (`RctSigBase.txn_fee`, `as_pico`)
+    let bj = |ty: &str, fee: &str| format!("{{\"rct_type\":{},\"txn_fee\":{},\"pseudo_outs\":[],\"ecdh_info\":[],\"out_pk\":[]}}", ty, fee);
+    for (k, ty) in [RctType::Clsag, RctType::Bulletproof2, RctType::BulletproofPlus, RctType::Bulletproof].iter().enumerate() {
+        let t0 = small_tx(&mut rng, *ty, 2);
+        for (i, &fee) in big.iter().enumerate() { if !thorough && (i + k) % 3 != 0 { continue; }
+            let mut t = t0.clone(); t.rct_signatures.sig.as_mut().unwrap().txn_fee = Amount::from_pico(fee);
+            let r = o.op(txl(&t), false);
+            o.direct(r.contains(&format!("\"txn_fee\":{},\"pseudo_outs\"", fee)) && r.ends_with(" rt=eq"), "RingCT fee above 2^53: a JSON integer, read back", format!("fee {}", fee), r.chars().rev().take(12).collect::<String>().chars().rev().collect(), "\"txn_fee\":<integer> … rt=eq".into());
+            if r.ends_with("rt=eq") { let l = o.ops.last().unwrap().clone(); o.nontrivial.insert(l); }
+            let val = serde_json::to_value(&t).unwrap();
+            o.direct(val["rct_signatures"]["sig"]["txn_fee"].as_u64() == Some(fee) && serde_json::from_value::<Transaction>(val.clone()).ok().as_ref() == Some(&t), "RingCT fee above 2^53: to_value holds a u64 integer and from_value reads it back", format!("fee {}", fee), val["rct_signatures"]["sig"]["txn_fee"].to_string(), fee.to_string());
+            if i % 6 == 0 { let r = o.op(format!("c19_json_rd tx {}", hex(&serialize(&t))), false); o.direct(r.ends_with("rd=eq val=eq slice=eq"), "RingCT fee above 2^53 through from_reader / from_value / from_slice", format!("fee {}", fee), "-".into(), "eq eq eq".into()); }
+            if k == 0 { let doc = serde_json::to_string(t.rct_signatures.sig.as_ref().unwrap()).unwrap(); let r = o.op(format!("c19_de base {}", h(&doc)), false);
+                o.direct(r == format!("ok {}", doc), "RctSigBase with a fee above 2^53: read and written back", format!("fee {}", fee), r.chars().take(80).collect(), "ok <doc>".into()); if r.starts_with("ok") { let l = o.ops.last().unwrap().clone(); o.nontrivial.insert(l); } }
+            o.stat("pico_big.fee");
+        }
+    }
+    for fee in ["9007199254740993", "9007199254740993.0", "9.007199254740993e15", "\"9007199254740993\"", "18446744073709551615.0", "1.8446744073709552e19"] {
+        let r = o.op(format!("c19_de base {}", h(&bj("\"Clsag\"", fee))), false);
+        o.direct(r.starts_with("ok") == (fee == "9007199254740993"), "fee documents: only the integer literal is a fee", fee.to_string(), r.chars().take(20).collect(), if fee == "9007199254740993" { "ok" } else { "err" }.into());
+        o.stat("pico_big.fee_doc");
+    }
+
+    // ---- (3) `as_xmr` strings a fast path would take
+    let z = |n: usize| "0".repeat(n);
+    let mut strs: Vec<String> = ["+5", "+0", "+5.0", "+0.5", "+", "-+5", "+-5", "5+", "++5", "+9223372", "+9223373",
+        "5", "9223371", "9223372", "9223373", "9223372.0", "9223373.0", "9223372.036854775807", "9223372.036854775808", "9223372.1", "18446744", "18446745", "18446744.0", "18446744073709",
+        "9223372036854775807", "9223372036854775808", "18446744073709551615", "18446744073709551616", "99999999999999999999", "100000000000000000000000", "-5", "-9223372", "-9223373", "-9223372.036854775808", "-18446744", "-99999999999999999999",
+        "5.", ".5", "-.5", "5.5.5", "1_000", "0x10", "1e0", "5 ", "\\u0035", "\\u002b5", "٥", "５"].iter().map(|s| s.to_string()).collect();
+    // zero padding: total lengths 49, 50 (the last accepted), 51, 52, 60, 100, with and without a point, signed
+    for n in [48usize, 49, 50, 51, 59, 99] { strs.push(format!("{}5", z(n))); }
+    for n in [50usize, 51, 64] { strs.push(z(n)); }
+    strs.push(format!("{}.5", z(48))); strs.push(format!("{}.5", z(49))); strs.push(format!("0.{}", z(48))); strs.push(format!("0.{}", z(49))); strs.push(format!("5.{}", z(60)));
+    strs.push(format!("-{}5", z(48))); strs.push(format!("-{}5", z(49))); strs.push(format!("+{}5", z(10)));
+    for (i, st) in strs.iter().enumerate() { for ty in ["u", "s"] {
+        let q = format!("\"{}\"", st);
+        let mut rs: Vec<String> = Vec::new();
+        for shape in ["plain", "opt", "vec"] {
+            let doc = if shape == "vec" { format!("{{\"amounts\":[{}]}}", q) } else { format!("{{\"amount\":{}}}", q) };
+            let r = o.op(format!("c19_amount_{} as_xmr {} {} {}", if (i + shape.len()) % 5 == 0 { "rd" } else { "de" }, shape, ty, h(&doc)), false);
+            if r.starts_with("ok") { let l = o.ops.last().unwrap().clone(); o.nontrivial.insert(l); }
+            rs.push(r);
+        }
+        o.direct(rs[0] == rs[1] && rs[1] == rs[2], "as_xmr: plain, opt and vec give the same answer on the same string", format!("{} {}", ty, st), rs.join(" | "), "three equal results".into());
+        o.stat(&format!("xmr_str.{}.{}", ty, if rs[2].starts_with("ok") { "ok" } else { "err" }));
+        // a second element position: the same string after a valid one
+        if i % 2 == 0 { let r = o.op(format!("c19_amount_de as_xmr vec {} {}", ty, h(&format!("{{\"amounts\":[\"0.5\",{}]}}", q))), false);
+            o.direct(r.starts_with("ok") == rs[0].starts_with("ok"), "as_xmr::vec: the second element is read like a single amount", format!("{} {}", ty, st), r.clone(), rs[0].clone()); }
+    } }
+}
+fn rng_sign(x: i64) -> bool { x % 3 == 0 }
